@@ -56,6 +56,10 @@ def make_device(kind, variant):
             d.fragment_at = 7       # every answer arrives in two datagrams
         if kind == 'ETrej':
             d.refused = [(47500, 47500)]
+        if kind == 'ETunset':
+            d.rf.setbytes(47547, b'\xff' * 12)      # group 1 never programmed (valid on/off byte, fields fail validation)
+        if kind == 'ETunset55':
+            d.rf.setbytes(47547, bytes.fromhex('0000173b55ff00640064ffff'))   # 'not set' marker 0x55 in the on/off byte
         if kind == 'ETbad':
             d.rf.setbytes(47547, bytes([99] * 12))    # stored group 1 is undecodable
         return 'ET', d
@@ -314,7 +318,7 @@ PAIRS = [('ET', 'ET'), ('ET745', 'ET'), ('ETbad', 'ET745'), ('ETnobat', 'ET'), (
          ('DT', 'DT1'), ('DTrej', 'DT'), ('DT1', 'DT1'), ('ES', 'ESv2'), ('ETfrag', 'ETfrag'), ('ETfrag', 'DT'), ('ET', 'ETtcp'), ('ET', 'ETaddr'), ('ET', 'ESv2'), ('ET', 'DT'), ('ES', 'ES'), ('ETv1', 'ES'), ('ET745', 'ESv2'),
          ('ET=eq', 'DT=eq'), ('DT=eq', 'ET=eq'), ('ET=eq', 'ES=eq'), ('ES=eq', 'DT=eq'), ('ET=eq', 'ET745=eq')]
 # long-lived objects used from successive event loops (keep-alive on / off): two-step sequences, one loop per step
-PAIRS += [('DTnometer', 'DT'), ('DT', 'DTnometer'), ('DTnometer', 'DTnometer')]
+PAIRS += [('ETunset', 'ET745'), ('ET745', 'ETunset'), ('ETunset55', 'ET745'), ('ETunset', 'ETv1'), ('DTnometer', 'DT'), ('DT', 'DTnometer'), ('DTnometer', 'DTnometer')]
 LOOP_PAIRS = [('ET+ka+loops', 'DT+ka+loops'), ('ET+ka+loops', 'ET+loops'), ('DT+ka+loops', 'ES+ka+loops'), ('ET+ka+loops', 'ETtcp+ka+loops')]
 
 
